@@ -148,13 +148,15 @@ fn elem_walk(d: &AutoCommit, obj: &ObjId, heads: Option<&[ChangeHash]>, enc: Tex
     res
 }
 
-struct ReadOut { lines: Vec<String>, oracle: Vec<String> }
+/// `cmp_lines`: the lines with a stale `marks()` (finding F3) replaced by the marks of the reloaded document,
+/// for comparisons between replicas
+struct ReadOut { lines: Vec<String>, oracle: Vec<String>, cmp_lines: Vec<String> }
 
 fn read_obj(d: &AutoCommit, obj: &ObjId, heads: Option<&[ChangeHash]>, enc: TextEncoding, with_oracles: bool) -> ReadOut {
     let mut oracle = vec![];
     let len = match heads { Some(h) => d.length_at(obj, h), None => d.length(obj) };
     let text = match heads { Some(h) => d.text_at(obj, h), None => d.text(obj) };
-    let text = match text { Ok(t) => t, Err(e) => return ReadOut { lines: vec![format!("err {}", rt_err(&e))], oracle } };
+    let text = match text { Ok(t) => t, Err(e) => return ReadOut { lines: vec![format!("err {}", rt_err(&e))], oracle, cmp_lines: vec![] } };
     let marks = match heads { Some(h) => d.marks_at(obj, h), None => d.marks(obj) }.unwrap_or_default();
     let mut gm: Vec<MarkMap> = vec![];
     for i in 0..=len {
@@ -162,15 +164,34 @@ fn read_obj(d: &AutoCommit, obj: &ObjId, heads: Option<&[ChangeHash]>, enc: Text
     }
     let spans: Vec<Span> = match heads { Some(h) => d.spans_at(obj, h), None => d.spans(obj) }.map(|s| s.collect()).unwrap_or_default();
     let mut lines = vec![format!("len {}", len), format!("text {}", hx(text.as_bytes()))];
-    lines.push(format!("marks {}", if marks.is_empty() { "-".to_string() } else {
-        marks.iter().map(|m| format!("{}:{}:{}:{}", hex::encode(m.name().as_bytes()), m.start, m.end, show_scalar(m.value()))).collect::<Vec<_>>().join(",") }));
+    let marks_line = |ms: &Vec<Mark>| format!("marks {}", if ms.is_empty() { "-".to_string() } else {
+        ms.iter().map(|m| format!("{}:{}:{}:{}", hex::encode(m.name().as_bytes()), m.start, m.end, show_scalar(m.value()))).collect::<Vec<_>>().join(",") });
+    lines.push(marks_line(&marks));
+    // F3: present-time marks() comes from the incrementally maintained mark index; it must equal marks() of the
+    // same document rebuilt from its saved bytes.  When it does not, that ONE defect is reported
+    // (`marks-index-stale`) and every other comparison of this read uses the rebuilt marks, so that the
+    // generic slugs (marks-vs-spans, peritext-value, marks-merge, …) keep their meaning.
+    let mut stale_marks: Option<Vec<Mark>> = None;
+    if heads.is_none() {
+        let bytes = d.clone().save();
+        if let Ok(l) = AutoCommit::load_with_options(&bytes, automerge::LoadOptions::new().text_encoding(enc)) {
+            if let Ok(fresh) = l.marks(obj) { if fresh != marks { stale_marks = Some(fresh); } }
+        }
+    }
+    let reported_marks = marks.clone();
+    let marks = match &stale_marks { Some(f) => f.clone(), None => marks };
     lines.push(format!("gm {}", gm.iter().map(show_set).collect::<Vec<_>>().join("|")));
     let span_strs: Vec<String> = spans.iter().map(|s| match s {
         Span::Text { text, marks } => format!("t:{}:{}", hx(text.as_bytes()), show_set(&marks.as_ref().map(|m| markset_map(m)).unwrap_or_default())),
         Span::Block(_) => "b".to_string(),
     }).collect();
     lines.push(format!("spans {}", if span_strs.is_empty() { "-".to_string() } else { span_strs.join(";") }));
-    if !with_oracles { return ReadOut { lines, oracle }; }
+    let mut cmp_lines = lines.clone();
+    cmp_lines[2] = marks_line(&marks);
+    if !with_oracles { return ReadOut { lines, oracle, cmp_lines }; }
+    if stale_marks.is_some() {
+        oracle.push(format!("! C25 sig=marks-index-stale marks() = [{}] but the same document reloaded from save() reports [{}] (mark index not maintained by apply_changes)", &marks_line(&reported_marks)[6..], &marks_line(&marks)[6..]));
+    }
 
     // ---------------- C24
     let w = width(enc, &text);
@@ -278,12 +299,7 @@ fn read_obj(d: &AutoCommit, obj: &ObjId, heads: Option<&[ChangeHash]>, enc: Text
         }
         if let Some(b) = bad { oracle.push(b); }
     }
-    // present-time marks come from the mark index, historical ones from a walk: the two must agree at the current heads
-    if heads.is_none() && d.pending_ops() == 0 {
-        let hs = d.clone().get_heads();
-        if let Ok(slow) = d.marks_at(obj, &hs) { if slow != marks { oracle.push("! C25 sig=marks-index-vs-walk marks() differs from marks_at(current heads)".to_string()); } }
-    }
-    ReadOut { lines, oracle }
+    ReadOut { lines, oracle, cmp_lines }
 }
 
 /// expected resolution of an element cursor from the shadow (element order from the changes, visibility and
@@ -383,7 +399,9 @@ pub fn exec(s: &mut CrdtSession, toks: &[&str], enc: TextEncoding) -> Vec<String
                 // the new text belongs to the side of the boundary the expand flag names: a begin that expands
                 // (or an end that does not) leaves the text after the mark op, otherwise before it
                 let want = if is_begin == ex { next } else { prev };
-                let ms = d.marks(&obj).unwrap_or_default();
+                // marks of the document rebuilt from its bytes (independent of a stale mark index, finding F3)
+                let ms = AutoCommit::load_with_options(&d.clone().save(), automerge::LoadOptions::new().text_encoding(enc)).ok()
+                    .and_then(|l| l.marks(&obj).ok()).unwrap_or_default();
                 let mut got = MarkMap::new();
                 for m in &ms { if m.start <= pos && pos < m.end { got.insert(hex::encode(m.name().as_bytes()), show_scalar(m.value())); } }
                 if got != want {
@@ -434,8 +452,8 @@ pub fn exec(s: &mut CrdtSession, toks: &[&str], enc: TextEncoding) -> Vec<String
             let b = s.replicas.get(toks[2]).unwrap();
             let mut res = vec!["ok".to_string()];
             if a.pending_ops() == 0 && b.pending_ops() == 0 && hashes(a) == hashes(b) {
-                let ra = read_obj(a, &obj, None, enc, false).lines;
-                let rb = read_obj(b, &obj, None, enc, false).lines;
+                let ra = read_obj(a, &obj, None, enc, false).cmp_lines;
+                let rb = read_obj(b, &obj, None, enc, false).cmp_lines;
                 if ra != rb { res.push(format!("! C25 sig=marks-{} replicas {} and {} hold the same changes but read different rich text", toks[4], toks[1], toks[2])); }
                 else { res.push("#same-checked".to_string()); }
             }
@@ -528,7 +546,7 @@ pub fn exec(s: &mut CrdtSession, toks: &[&str], enc: TextEncoding) -> Vec<String
 fn run(sess: &mut Session, line: &str, out: &mut Out) -> Vec<String> {
     let res = exec_line(sess, line, out);
     for l in &res {
-        if let Some(t) = l.strip_prefix('#') { out.count(&format!("oracle_{}", t.replace('-', "_"))); }
+        if let Some(t) = l.strip_prefix('#') { if t.ends_with("-checked") && !t.contains(' ') { out.count(&format!("oracle_{}", t.replace('-', "_"))); } }
         if let Some(t) = l.strip_prefix("! ") { let mut it = t.split(' '); let p = it.next().unwrap_or(""); let sg = it.next().unwrap_or(""); out.count(&format!("fail_{}_{}", p, sg.replace('=', "_").replace('-', "_"))); }
     }
     if res.first().map(|x| x.starts_with("err")).unwrap_or(false) { out.count(&format!("err_{}", line.split(' ').next().unwrap())); }
